@@ -1,6 +1,7 @@
 package engine
 
 import (
+	"encoding/json"
 	"fmt"
 	"go/types"
 	"os"
@@ -31,6 +32,162 @@ type Engine struct {
 	Seed      int
 	funcIdx   map[string]int
 	SkipRace  map[string]bool // obligations recorded as open known findings: not raced individually
+	// BaseLocals: names and types of the locals of every function under contract, as they were
+	// when its contract was written (contracts/locals.json, written by `govc locals`). Used only
+	// to re-bind a name in a loop invariant after the local was renamed in the source.
+	BaseLocals map[string][]BaseLocal
+}
+
+type BaseLocal struct {
+	Name string `json:"name"`
+	Type string `json:"type"`
+	// Loop: the local is assigned inside a loop (accumulators and counters, as opposed to
+	// temporaries computed once)
+	Loop bool `json:"loop,omitempty"`
+}
+
+// blocksInLoops: the blocks that belong to some natural loop of fn.
+func blocksInLoops(fn *ssa.Function) map[*ssa.BasicBlock]bool {
+	in := map[*ssa.BasicBlock]bool{}
+	for _, b := range fn.Blocks {
+		for _, h := range b.Succs {
+			if !h.Dominates(b) {
+				continue
+			}
+			in[h] = true
+			stack := []*ssa.BasicBlock{}
+			if !in[b] || b != h {
+				in[b] = true
+				stack = append(stack, b)
+			}
+			seen := map[*ssa.BasicBlock]bool{h: true, b: true}
+			for len(stack) > 0 {
+				x := stack[len(stack)-1]
+				stack = stack[:len(stack)-1]
+				if x == h {
+					continue
+				}
+				for _, p := range x.Preds {
+					if !seen[p] {
+						seen[p] = true
+						in[p] = true
+						stack = append(stack, p)
+					}
+				}
+			}
+		}
+	}
+	return in
+}
+
+// LocalsOf lists the named locals of fn in declaration order.
+func LocalsOf(fn *ssa.Function) []BaseLocal {
+	var as []*ssa.Alloc
+	for _, b := range fn.Blocks {
+		for _, in := range b.Instrs {
+			if a, ok := in.(*ssa.Alloc); ok && a.Comment != "" && a.Pos().IsValid() {
+				as = append(as, a)
+			}
+		}
+	}
+	sort.SliceStable(as, func(i, j int) bool { return as[i].Pos() < as[j].Pos() })
+	inLoop := blocksInLoops(fn)
+	var out []BaseLocal
+	for _, a := range as {
+		bl := BaseLocal{Name: a.Comment, Type: a.Type().Underlying().(*types.Pointer).Elem().String()}
+		for _, ref := range *a.Referrers() {
+			if st, ok := ref.(*ssa.Store); ok && st.Addr == a && inLoop[st.Block()] && a.Block() != st.Block() {
+				bl.Loop = true
+			}
+		}
+		out = append(out, bl)
+	}
+	return out
+}
+
+// renamedLocal resolves a name that a contract uses but the function no longer declares: among
+// the baseline locals of the function, those of the same type that have disappeared are matched,
+// in declaration order, with the locals of that type that are new. A wrong match cannot make a
+// proof succeed (invariants are checked), it can only fail to repair it.
+func (e *Engine) renamedLocal(fn *ssa.Function, name string) string {
+	key := fn.String()
+	base, ok := e.BaseLocals[key]
+	if !ok && fn.Origin() != nil {
+		base, ok = e.BaseLocals[fn.Origin().String()]
+	}
+	if !ok {
+		return ""
+	}
+	typ := ""
+	baseNames := map[string]bool{}
+	for _, b := range base {
+		baseNames[b.Name] = true
+		if b.Name == name && typ == "" {
+			typ = b.Type
+		}
+	}
+	if typ == "" {
+		return ""
+	}
+	cur := LocalsOf(fn)
+	curNames := map[string]bool{}
+	for _, c := range cur {
+		curNames[c.Name] = true
+	}
+	var gone, fresh []string
+	seen := map[string]bool{}
+	for _, b := range base {
+		if b.Type == typ && !curNames[b.Name] && !seen[b.Name] {
+			seen[b.Name] = true
+			gone = append(gone, b.Name)
+		}
+	}
+	seen = map[string]bool{}
+	for _, c := range cur {
+		if c.Type == typ && !baseNames[c.Name] && !seen[c.Name] {
+			seen[c.Name] = true
+			fresh = append(fresh, c.Name)
+		}
+	}
+	if len(gone) == len(fresh) {
+		for i, g := range gone {
+			if g == name {
+				return fresh[i]
+			}
+		}
+		return ""
+	}
+	// temporaries were introduced or removed as well: match within the class of locals that
+	// are (not) assigned inside a loop
+	loopOf := func(ls []BaseLocal, n string) bool {
+		for _, l := range ls {
+			if l.Name == n {
+				return l.Loop
+			}
+		}
+		return false
+	}
+	want := loopOf(base, name)
+	var g2, f2 []string
+	for _, g := range gone {
+		if loopOf(base, g) == want {
+			g2 = append(g2, g)
+		}
+	}
+	for _, f := range fresh {
+		if loopOf(cur, f) == want {
+			f2 = append(f2, f)
+		}
+	}
+	if len(g2) != len(f2) {
+		return ""
+	}
+	for i, g := range g2 {
+		if g == name {
+			return f2[i]
+		}
+	}
+	return ""
 }
 
 // overlayInstances is a synthetic file forcing generic instantiations (DESIGN §3.1).
@@ -52,8 +209,12 @@ func overlayInstances() map[string][]byte {
 		}
 	}
 	c.WriteString("}\n")
+	// C20: one instance of the generic extension mutators (the type parameter only selects
+	// the element type handed to FromElement)
+	x := "//go:build verif\n\npackage extension\n\nimport dtpb \"github.com/google/fhir/go/proto/google/fhir/proto/r4/core/datatypes_go_proto\"\n\nfunc verifInstances() {\n\tSetByURL[*dtpb.String](nil, \"\")\n\t_ = New[*dtpb.String](\"\", nil)\n}\n"
 	return map[string][]byte{"/repo/internal/narrow/verif_instances.go": []byte(b.String()),
-		"/repo/internal/fhirconv/verif_instances.go": []byte(c.String())}
+		"/repo/internal/fhirconv/verif_instances.go": []byte(c.String()),
+		"/repo/internal/element/extension/verif_instances.go": []byte(x)}
 }
 
 func Load(repoDir, verifDir string, patterns []string) (*Engine, error) {
@@ -223,6 +384,11 @@ func Load(repoDir, verifDir string, patterns []string) (*Engine, error) {
 			return nil, fmt.Errorf("prelude: unknown type %q", tn)
 		}
 		e.Sorts.AddUniverse(t)
+	}
+	if data, err := os.ReadFile(filepath.Join(verifDir, "contracts", "locals.json")); err == nil {
+		if err := json.Unmarshal(data, &e.BaseLocals); err != nil {
+			return nil, fmt.Errorf("contracts/locals.json: %v", err)
+		}
 	}
 	return e, nil
 }
